@@ -29,5 +29,25 @@ func TickN(k int) {
 	}
 }
 
-func Reset()       { atomic.StoreInt64(&n, 0) }
+func Reset()       { atomic.StoreInt64(&n, 0); atomic.StoreInt64(&an, 0) }
 func Count() int64 { return atomic.LoadInt64(&n) }
+
+// Declared-size allocations (make(T, n), x.Grow(n)) are accounted before they happen: with AllocLimit > 0 a call
+// that would take the running total of requested elements past the limit panics with ExceededAlloc instead of
+// allocating, so a decoder that sizes a buffer from an untrusted field is reported without the worker running
+// out of memory.
+var an int64
+var AllocLimit int64
+
+type ExceededAlloc struct{ N, Request int64 }
+
+func Alloc(k int64) {
+	if k < 0 {
+		return // make itself panics
+	}
+	if v := atomic.AddInt64(&an, k); AllocLimit > 0 && v > AllocLimit {
+		panic(ExceededAlloc{v, k})
+	}
+}
+
+func Allocated() int64 { return atomic.LoadInt64(&an) }
